@@ -58,3 +58,12 @@ class MustDomain(Domain):
     def expr_effect(self, expr: ast.expr, state: frozenset, flow: Flow) -> frozenset:
         ev = self.expr_events(expr)
         return state | frozenset(ev) if ev else state
+
+
+class MayDomain(MustDomain):
+    """May-analysis: the state is the set of events that happened on *some*
+    path to the point (join = union).  Used for ordering rules of the form "B
+    never happens after A": A's event must not be in the may-state at B."""
+
+    def join(self, a: frozenset, b: frozenset) -> frozenset:
+        return a | b
